@@ -130,10 +130,11 @@ class UDPMessageSerializer:
             if fill_missing:
                 var_type = template_var.type
                 # Variable-length var, just leave it empty.
-                if var_type.size == -1:
+                if var_type == MsgType.MVT_VARIABLE:
                     var_data = b""
                 else:
-                    var_data = RawBytes(b"\x00" * var_type.size)
+                    # The template knows the width of `Fixed` vars, the type doesn't
+                    var_data = RawBytes(b"\x00" * template_var.size)
             else:
                 raise exc.MessageSerializationError(template_var.name, "variable value is not set")
 
